@@ -397,7 +397,14 @@ def ndview(ex, base, items, node):
 def _ev_subscript(self, n):
     if self.c.py_mode and getattr(self.c, "vectors", False):
         items_ = n.slice.elts if isinstance(n.slice, ast.Tuple) else [n.slice]
-        if any(isinstance(i, ast.Slice) and (i.lower is not None or i.upper is not None) for i in items_) and \
+        lead_ints = 0
+        for i_ in items_:
+            if isinstance(i_, ast.Slice):
+                break
+            lead_ints += 1
+        col_like = any(isinstance(i_, ast.Slice) for i_ in items_) and \
+            any(not isinstance(i_, ast.Slice) for i_ in items_[lead_ints:])      # an index AFTER a slice: A[:, i]
+        if (any(isinstance(i, ast.Slice) and (i.lower is not None or i.upper is not None) for i in items_) or col_like) and \
                 all(isinstance(i, ast.Slice) or not isinstance(i, (ast.List, ast.Tuple)) for i in items_):
             try:
                 base0 = self.ev(n.value)
@@ -633,3 +640,48 @@ def _method_call2(self, recv, name, n):
 
 symex.Exec.numpy_store = _numpy_store
 symex.Exec.method_call = _method_call2
+
+
+# ---------------------------------------------------------------- M.T, np.maximum / np.minimum / np.mean([a, b], axis=0) on 2-d arrays
+_orig_attr2 = symex.Exec.ev_Attribute
+_prev_call = symex.Exec.ev_Call
+
+
+def _ev_attribute(self, n):
+    if self.c.py_mode and getattr(self.c, "vectors", False) and n.attr == "T":
+        try:
+            v = self.ev(n.value)
+        except Undecidable:
+            v = None
+        if v is not None and v.k == "arr" and v.t.ndim == 2:
+            return self.method_call(v, "transpose", ast.Call(func=n, args=[], keywords=[]))
+    return _orig_attr2(self, n)
+
+
+def _ev_call3(self, n):
+    if self.c.py_mode and getattr(self.c, "vectors", False):
+        fn = self.fname(n.func)
+        if fn in ("np.maximum", "np.minimum", "numpy.maximum", "numpy.minimum") and len(n.args) == 2:
+            a, b = self.ev(n.args[0]), self.ev(n.args[1])
+            if a.k == "arr" and b.k == "arr" and a.t.ndim == b.t.ndim:
+                isf = a.t.elem.kind == "float" or b.t.elem.kind == "float"
+                mx = fn.endswith("maximum")
+
+                def f(x, y):
+                    xt = self.to_float(x) if isf else self.to_int(x)
+                    yt = self.to_float(y) if isf else self.to_int(y)
+                    return z3.If(xt >= yt, xt, yt) if mx else z3.If(xt <= yt, xt, yt)
+                return self.elementwise(f, a, b, elem="FLOAT64TYPE_t" if isf else "INT64TYPE_t")
+        if fn in ("np.mean", "numpy.mean") and len(n.args) == 1 and isinstance(n.args[0], ast.List) and len(n.args[0].elts) >= 1:
+            kw = {k.arg: k.value for k in n.keywords}
+            if set(kw) == {"axis"} and isinstance(kw["axis"], ast.Constant) and kw["axis"].value == 0:
+                vals = [self.ev(e) for e in n.args[0].elts]
+                if all(v.k == "arr" and v.t.ndim == vals[0].t.ndim for v in vals):
+                    cnt = len(vals)
+                    return self.elementwise(lambda *xs: sum((self.to_float(x) for x in xs[1:]), self.to_float(xs[0])) / cnt,
+                                            *vals, elem="FLOAT64TYPE_t")
+    return _prev_call(self, n)
+
+
+symex.Exec.ev_Attribute = _ev_attribute
+symex.Exec.ev_Call = _ev_call3
